@@ -362,12 +362,44 @@ reposition:
              * longer the root of its layer (it was split). Resuming in the
              * border of the upper layer would continue behind the link and
              * skip the rest of this layer: instead position the cursor again
-             * just behind the last delivered key, from the root of the tree.
+             * just behind what was delivered last, from the root of the tree.
              */
-            std::string last_full_key = ctx->full_key();
+            std::string pos = ctx->full_key();
+            scan_endpoint pos_ep = scan_endpoint::EXCLUSIVE;
+            const key_tuple top = ctx->stack_top().key;
+            // smallest key above every key that has prefix s; false if none
+            auto successor = [](std::string& s) {
+                while (!s.empty() &&
+                       static_cast<unsigned char>(s.back()) == 0xffU) {
+                    s.pop_back();
+                }
+                if (s.empty()) { return false; }
+                s.back() = static_cast<char>(
+                        static_cast<unsigned char>(s.back()) + 1U);
+                return true;
+            };
+            if (top.get_key_length() > sizeof(key_slice_type)) {
+                if (top == key_tuple::sup()) {
+                    // right to left, nothing of this layer delivered yet:
+                    // everything below the end of the layer's prefix is left
+                    pos.resize(pos.size() - sizeof(key_slice_type));
+                    if (!successor(pos)) {
+                        pos.clear();
+                        pos_ep = scan_endpoint::INF;
+                    }
+                } else if (right_to_left) {
+                    // the layer below this link is finished: next is the
+                    // 8-byte key that has the slice of the link
+                    pos_ep = scan_endpoint::INCLUSIVE;
+                } else {
+                    // left to right: the layer below this link is finished,
+                    // continue above every key that has the link's prefix
+                    if (!successor(pos)) { return status::OK_SCAN_END; }
+                    pos_ep = scan_endpoint::INCLUSIVE;
+                }
+            }
             ctx->stack_clear();
-            auto rc = iscan_findfirst(ctx, last_full_key,
-                                      scan_endpoint::EXCLUSIVE, out, bnv_cb);
+            auto rc = iscan_findfirst(ctx, pos, pos_ep, out, bnv_cb);
             if (rc != status::OK_SCAN_CONTINUE) { return rc; }
             goto next_layer; // NOLINT
         }
